@@ -168,17 +168,22 @@ def resize_rules(ck, rules):
                 st = sts[0]
                 gs = st.guards
                 okg = False
-                if len(gs) == 1 and isinstance(gs[0][2], ast.Compare) and len(gs[0][2].ops) == 1:
-                    c = gs[0][2]
-                    l, op, r = c.left, c.ops[0], c.comparators[0]
-                    if isinstance(op, ast.GtE) and dotted(l) == "self.n_word" and _threshold_ok(prog, r):
-                        okg = "ge"
-                    elif isinstance(op, ast.Lt) and dotted(l) == "self.n_word" and _threshold_ok(prog, r):
-                        okg = "lt"
-                    elif isinstance(op, ast.LtE) and _threshold_ok(prog, l) and dotted(r) == "self.n_word":
-                        okg = "ge"
-                    elif isinstance(op, ast.Gt) and _threshold_ok(prog, l) and dotted(r) == "self.n_word":
-                        okg = "lt"
+                gpol = None
+                if len(gs) == 1:
+                    # the single controlling test, negations stripped (`if not n_word >= T` is the same test with the branches exchanged)
+                    c, gpol = (gs[0][2] if gs[0][2] is not None else gs[0][0]), gs[0][1]
+                    while isinstance(c, ast.UnaryOp) and isinstance(c.op, ast.Not):
+                        c, gpol = c.operand, not gpol
+                    if isinstance(c, ast.Compare) and len(c.ops) == 1:
+                        l, op, r = c.left, c.ops[0], c.comparators[0]
+                        if isinstance(op, ast.GtE) and dotted(l) == "self.n_word" and _threshold_ok(prog, r):
+                            okg = "ge"
+                        elif isinstance(op, ast.Lt) and dotted(l) == "self.n_word" and _threshold_ok(prog, r):
+                            okg = "lt"
+                        elif isinstance(op, ast.LtE) and _threshold_ok(prog, l) and dotted(r) == "self.n_word":
+                            okg = "ge"
+                        elif isinstance(op, ast.Gt) and _threshold_ok(prog, l) and dotted(r) == "self.n_word":
+                            okg = "lt"
                 if isinstance(st.value, ast.Compare) and not gs:
                     # status['extended_prec'] = self.n_word >= T
                     c = st.raw_value
@@ -189,7 +194,7 @@ def resize_rules(ck, rules):
                         "indicator must be True exactly when n_word >= 64")
                 elif okg != "direct":
                     val = isinstance(st.value, ast.Constant) and st.value.value
-                    pol = gs[0][1]
+                    pol = gpol
                     expect = pol if okg == "ge" else (not pol)
                     if not isinstance(st.value, ast.Constant) or bool(val) != expect:
                         bad(rules["ext"], "the indicator is True on the n_word >= threshold branch and False on the other", "under %s (%s) stores %s" % (src(gs[0][2]), pol, src(st.value)), st.stmt)
